@@ -31,6 +31,7 @@
 
 mod cas;
 mod export;
+mod reading;
 mod retain;
 mod wscstore;
 
@@ -41,7 +42,7 @@ use crate::kernel::{Outcome, PropertySpec, Rng, RunCtx, Scenario, Tier};
 pub const SPEC: PropertySpec = PropertySpec {
     id: "C20",
     level: "fault_enumeration",
-    rule: "scenario = one of {CAS tier history (memory|disk) with file faults between ops, RetainedBlobIndex history over a small coordinate alphabet on MemoryTier|EvictingBlobStore, FilesystemWscStore stage/commit/crash/tear history, WAL record set pushed through the 3 export profiles with each referenced blob withheld/corrupted in turn}; non-trivial = at least one fault fired and a read happened after it, or an aliasing / idempotence / wrong-hash case was exercised; distinct = hash of the scenario",
+    rule: "scenario = one of {CAS tier history (memory|disk) with file faults between ops, RetainedBlobIndex history over a small coordinate alphabet on MemoryTier|EvictingBlobStore, FilesystemWscStore stage/commit/crash/tear history, WAL record set pushed through the 3 export profiles with each referenced blob withheld/corrupted in turn, RetainedReadingCache retain/reveal history with exact / other / field-edited-hash-kept identities and unknown keys}; non-trivial = at least one fault fired and a read happened after it, or an aliasing / idempotence / wrong-hash case was exercised; distinct = hash of the scenario",
     quick_runs: 100_000,
     thorough_runs: 1_200_000,
     real_components: &[
@@ -141,15 +142,17 @@ pub enum C20 {
     Retain(retain::RetainScenario),
     WscStore(wscstore::WscStoreScenario),
     Export(export::ExportScenario),
+    Reading(reading::ReadingScenario),
 }
 
 impl Scenario for C20 {
     fn generate(rng: &mut Rng, tier: Tier, avoid_known: bool) -> Self {
-        match rng.weighted(&[50, 20, 16, 14]) {
+        match rng.weighted(&[50, 20, 16, 14, 8]) {
             0 => C20::Cas(cas::CasScenario::generate(rng, tier, avoid_known)),
             1 => C20::Retain(retain::RetainScenario::generate(rng, tier)),
             2 => C20::WscStore(wscstore::WscStoreScenario::generate(rng, tier)),
-            _ => C20::Export(export::ExportScenario::generate(rng, tier)),
+            3 => C20::Export(export::ExportScenario::generate(rng, tier)),
+            _ => C20::Reading(reading::ReadingScenario::generate(rng, tier)),
         }
     }
 
@@ -172,6 +175,10 @@ impl Scenario for C20 {
                 ctx.hit("reach.surface_export");
                 s.execute(ctx)
             }
+            C20::Reading(s) => {
+                ctx.hit("reach.surface_reading_cache");
+                s.execute(ctx)
+            }
         };
         if nontrivial {
             ctx.nontrivial(&sig);
@@ -185,6 +192,7 @@ impl Scenario for C20 {
             C20::Retain(s) => s.shrink().into_iter().map(C20::Retain).collect(),
             C20::WscStore(s) => s.shrink().into_iter().map(C20::WscStore).collect(),
             C20::Export(s) => s.shrink().into_iter().map(C20::Export).collect(),
+            C20::Reading(s) => s.shrink().into_iter().map(C20::Reading).collect(),
         }
     }
 }
